@@ -730,6 +730,17 @@ class FreshWorld(World):
                 ctx.probe("solve_not_converged_both")
             return "exc:both:" + failed.kind
         sl, sf = simlib.get_state(live), simlib.get_state(F)
+        if rec.type == "PhaseField" and self.models[rec.model_i].params.get("solver") == "BoundConstrain":
+            # scipy's lsq_linear(method="trf", tol=1e-10) is an interior method: whenever round-off puts the
+            # unconstrained minimiser a hair below the lower bound it returns a strictly interior point whose distance
+            # to the bound is set by its optimality tolerance (1e-5 .. 1e-2 in damage, depending on Gc / l0), otherwise the
+            # unconstrained solution itself.  Two exact copies of one problem can land on either side, so the solutions
+            # of this back end are not comparable digit by digit; its *systems* are (and are compared above).
+            for pt in sf:
+                if not (np.all(np.isfinite(sl[pt][0])) == np.all(np.isfinite(sf[pt][0]))):
+                    raise Violation("stale-solution", f"u ({pt}) after Solve: finite on one side only, live vs fresh [PhaseField, BoundConstrain]")
+            self.ctx.probe("pf_boundconstrain_solution_not_compared_digitwise")
+            sf = {}
         for pt in sf:
             if not np.all(np.isfinite(sf[pt][0])):
                 raise Discard("fresh solution not finite (singular system or degenerate split)")
